@@ -5,6 +5,8 @@ Expression forms (tuples):
   ("arrow", NodeName, e)   ("set", [terminal names], text)     ("empty",)
 Grammar: {"name", "terms", "inputs": [(nt, noeoi)], "nts": [(name, [(expr, rule_arrow|None) ...])], "opts": {...}}
 """
+import json
+
 from vlib import grammars
 
 
@@ -74,6 +76,16 @@ def ptm(e, top=False):
         return "." + e[1]
     if k == "la":
         return "(?= " + " & ".join(("!" if neg else "") + nt for nt, neg in e[1]) + ")"
+    if k == "alias":
+        return ptm(e[2]) + "[" + e[1] + "]"
+    if k == "act":
+        args = []
+        for name, prop in e[2]:
+            if prop == "value":
+                args.append("verifVal($%s)" % name)
+            else:
+                args.append("${%s.%s}" % (name, prop))
+        return "{ verifAct(%d%s) }" % (e[1], "".join(", " + a for a in args))
     raise ValueError(k)
 
 
@@ -86,7 +98,8 @@ def print_tm(g, opts=None):
             if arrow:
                 txt += " -> " + arrow
             rows.append(txt)
-        body.append("%s :\n    %s\n;" % (name, "\n  | ".join(rows)))
+        ty = g.get("nt_types", {}).get(name)
+        body.append("%s%s :\n    %s\n;" % (name, (" {%s}" % ty) if ty else "", "\n  | ".join(rows)))
     gg = dict(g)
     gg["body"] = "\n".join(body)
     return grammars.print_tm(gg, opts)
@@ -116,6 +129,10 @@ def pgo(e, symid, ntidx):
         return "verifMarker()"
     if k == "la":
         return "verifLook([]int{%s}, []bool{%s})" % (", ".join(str(ntidx[nt]) for nt, _ in e[1]), ", ".join("true" if neg else "false" for _, neg in e[1]))
+    if k == "alias":
+        return "verifAlias(%s, %s)" % (json.dumps(e[1]), pgo(e[2], symid, ntidx))
+    if k == "act":
+        return "verifAction(%d, []verifRefArg{%s})" % (e[1], ", ".join("{%s, %s}" % (json.dumps(n), json.dumps(pr)) for n, pr in e[2]))
     raise ValueError(k)
 
 
@@ -224,3 +241,66 @@ EXTLA = [
                                ("It", [(S(LA("Qq"), T("a"), T("a")), "Pair"), (S(LA("!Qq"), T("a")), "Single"), (seq("b"), "B")]),
                                ("Qq", [(seq("a", "a", "b"), None), (seq("a", "a", "c"), None)])]),
 ]
+
+
+def AL(name, e):
+    return ("alias", name, auto(e))
+
+
+def ACT(id, *refs):
+    """refs: 'x.offset', 'x.endoffset', 'x' (value), with x an alias/symbol name or first()/last()/left()."""
+    out = []
+    for r in refs:
+        if "." in r and not r.endswith(")"):
+            n, pr = r.rsplit(".", 1)
+        elif ")." in r:
+            n, pr = r.rsplit(".", 1)
+        else:
+            n, pr = r, "value"
+        out.append((n, pr))
+    return ("act", id, out)
+
+
+def typed(g):
+    """Values live on the parser stack only if some nonterminal has a type: route the input through a typed nonterminal."""
+    nts = []
+    for name, alts in g["nts"]:
+        nts.append(("Bd" if name == "Sx" else name, [(rename(e), a) for e, a in alts]))
+    g = dict(g, nts=[("Sx", [(S(N("Bd")), None)])] + nts, nt_types={"Bd": "int"}, typed_terms=True)
+    return g
+
+
+def rename(e):
+    k = e[0]
+    if k == "n":
+        return ("n", "Bd" if e[1] == "Sx" else e[1])
+    if k in ("seq", "alt"):
+        return (k, [rename(x) for x in e[1]])
+    if k == "opt":
+        return (k, rename(e[1]))
+    if k == "list":
+        return (k, rename(e[1]), e[2], e[3])
+    if k in ("arrow", "alias"):
+        return (k, e[1], rename(e[2]))
+    return e
+
+
+# semantic action references (C16). Terminals carry {int} values (the stub lexer's Value() is the token index).
+EXTACT_RAW = [
+    EG("v01", "abc", ["Sx"], [("Sx", [(S(AL("x", "a"), AL("y", "b"), ACT(1, "x.offset", "x.endoffset", "y.offset", "y", "x", "first().offset", "last().endoffset")), "R")])], typed_terms=True),
+    # mid-rule action and end action; an optional part referenced when present and when absent
+    EG("v02", "abc", ["Sx"], [("Sx", [(S(AL("x", "a"), ACT(1, "x.offset", "x"), O(AL("o", "b")), AL("z", "c"), ACT(2, "o.offset", "o.endoffset", "o", "z.offset", "x.endoffset", "last().endoffset")), "R")])], typed_terms=True),
+    # nested choice: each branch names a different symbol
+    EG("v03", "abcd", ["Sx"], [("Sx", [(S(T("a"), A(AL("p", "b"), S(AL("q", "c"), AL("r", "d"))), T("a"), ACT(1, "p.offset", "p", "q.offset", "r.endoffset", "r", "first().offset")), "R")])], typed_terms=True),
+    # lists: the alias spans several symbols (offset of the first, endoffset of the last element)
+    EG("v04", "abc", ["Sx"], [("Sx", [(S(T("c"), AL("l", L(T("a"), True, ["b"])), T("c"), ACT(1, "l.offset", "l.endoffset", "first().endoffset", "last().offset")), "R")])], typed_terms=True),
+    # references through nonterminals, left-recursive accumulation
+    EG("v05", "pa", ["Sx"], [("Sx", [(S(N("Ex")), "Top")]),
+                              ("Ex", [(S(AL("l", N("Ex")), AL("op", "p"), AL("r", N("Tx")), ACT(1, "l.offset", "l.endoffset", "op.offset", "op", "r.offset", "r.endoffset")), "Add"), (S(N("Tx"), ACT(2, "first().offset")), None)]),
+                              ("Tx", [(S(AL("v", "a"), ACT(3, "v", "v.offset")), "Atom")])], typed_terms=True),
+    # two optionals and an action between them
+    EG("v06", "abcd", ["Sx"], [("Sx", [(S(O(AL("h", "a")), AL("m", "b"), ACT(1, "h.offset", "h", "m.offset"), O(S(AL("t1", "c"), O(AL("t2", "d")))), AL("z", "b"),
+                                          ACT(2, "h.endoffset", "t1.offset", "t2.offset", "t2", "m.endoffset", "z.offset", "last().offset")), "R")])], typed_terms=True),
+]
+
+EXTACT = [typed(g) for g in EXTACT_RAW]
